@@ -48,4 +48,55 @@ Section UsersProofs.
     intros Hj. unfold Users.write. destruct (s_live s); [|reflexivity]. cbn [cells].
     rewrite nth_error_set_nth. destruct (Nat.eqb_spec j (s_cell s)); [contradiction|reflexivity].
   Qed.
+
+  (* ---- replacing all uses through a complete, live slot list leaves no use behind ---- *)
+  Definition subst (old new x : value) : value := if value_eqb x old then new else x.
+  Notation replace_uses := (replace_uses value value_eqb).
+
+  Lemma set_nth_app (a : list value) x (b : list value) v :
+    set_nth (length a) v (a ++ x :: b) = a ++ v :: b.
+  Proof. induction a as [|y a IH]; cbn; [reflexivity|]. rewrite IH. reflexivity. Qed.
+  Lemma nth_error_mid (a : list value) x (b : list value) : nth_error (a ++ x :: b) (length a) = Some x.
+  Proof. induction a as [|y a IH]; cbn; [reflexivity|exact IH]. Qed.
+
+  (* processing the slots of the cells b, after the cells a have been processed *)
+  Lemma replace_step old new (b : list value) : forall (a : list value) (slots : list (slot)),
+    map (s_cell) slots = seq (length a) (length b) -> Forall (fun s => s_live s = true) slots ->
+    cells value (fold_left (fun acc s => match nth_error (cells value acc) (s_cell s) with
+                            | Some x => if value_eqb x old then write acc s new else acc
+                            | None => acc end) slots {| cells := a ++ b |})
+    = a ++ map (subst old new) b.
+  Proof.
+    induction b as [|x b IH]; intros a slots Hs Hl.
+    - destruct slots; [reflexivity|discriminate].
+    - destruct slots as [|s slots]; [discriminate|]. cbn [map seq length] in Hs.
+      injection Hs as Hc Hs. inversion Hl as [|? ? Ls Ll]; subst. cbn [fold_left cells].
+      rewrite Hc, nth_error_mid. cbn [map]. unfold subst at 1.
+      assert (a ++ (if value_eqb x old then new else x) :: map (subst old new) b
+              = (a ++ [if value_eqb x old then new else x]) ++ map (subst old new) b) as -> by (rewrite <- app_assoc; reflexivity).
+      destruct (value_eqb x old) eqn:E.
+      + unfold Users.write. rewrite Ls. cbn [cells]. rewrite Hc, set_nth_app.
+        assert (a ++ new :: b = (a ++ [new]) ++ b) as -> by (rewrite <- app_assoc; reflexivity).
+        apply IH; [rewrite app_length; cbn [length]; rewrite Nat.add_1_r; exact Hs|exact Ll].
+      + assert (a ++ x :: b = (a ++ [x]) ++ b) as -> by (rewrite <- app_assoc; reflexivity).
+        apply IH; [rewrite app_length; cbn [length]; rewrite Nat.add_1_r; exact Hs|exact Ll].
+  Qed.
+
+  Theorem replace_uses_is_substitution (u : user) slots old new :
+    operands_complete value u slots -> operands_live slots ->
+    cells value (replace_uses u slots old new) = map (subst old new) (cells value u).
+  Proof.
+    intros Hc Hl. unfold Users.replace_uses. destruct u as [cs]. cbn [cells] in *.
+    apply (replace_step old new cs [] slots); [exact Hc|exact Hl].
+  Qed.
+
+  Theorem replace_all_uses_leaves_none (u : user) slots old new :
+    operands_complete value u slots -> operands_live slots -> new <> old ->
+    ~ In old (cells value (replace_uses u slots old new)).
+  Proof.
+    intros Hc Hl Hne. rewrite (replace_uses_is_substitution u slots old new Hc Hl).
+    rewrite in_map_iff. intros (x & Hx & _). unfold subst in Hx.
+    destruct (value_eqb x old) eqn:E; [congruence|]. subst x.
+    assert (value_eqb old old = true) by (apply value_eqb_spec; reflexivity). congruence.
+  Qed.
 End UsersProofs.
